@@ -25,6 +25,7 @@ class RG:
         self.depth = {}        # var -> number of register stages (anchored or movable) on the longest path from the region inputs
         self.feat = set()
         self.in_bits = 0
+        self.rstof = {}        # register / group output -> reset literal (None: no reset value)
 
     # ---- basics ----
     def fresh(self, p="t"):
@@ -138,10 +139,11 @@ class RG:
         self.feat.add("retiming-blocker")
         return self.define(n, self.typ[v], self.depth[v])
 
-    def reg(self, v, kind="reg", rst=True):
+    def reg(self, v, kind="reg", rst=True, rstval=None):
         n = self.fresh("r")
-        r = f" rst {self.rstlit(v)}" if rst else ""
-        self.emit(f"{kind} {n} {v}{r}")
+        lit = (rstval or self.rstlit(v)) if rst else None
+        self.emit(f"{kind} {n} {v}" + (f" rst {lit}" if lit else ""))
+        self.rstof[n] = lit
         return self.define(n, self.typ[v], self.depth[v] + 1)
 
     def out(self, v, warmD=None, en=None):
@@ -169,8 +171,9 @@ def _group_inputs(g, stall, resets, nin=None, widths=None):
     outs = []
     for p in pins:
         n = g.fresh("g")
-        rs = f" rst {g.rstlit(p)}" if resets else ""
-        g.emit(f"pipein {n} G {p}{rs}")
+        lit = g.rstlit(p) if resets else None
+        g.emit(f"pipein {n} G {p}" + (f" rst {lit}" if lit else ""))
+        g.rstof[n] = lit
         outs.append(g.define(n, g.typ[p]))
     g.feat.add("group")
     return en, outs
@@ -296,6 +299,8 @@ def t_movable_fwd(g):
     r = g.r
     mode = r.choice(["plain", "plain", "stall", "partial", "api", "group+movable"])
     resets = r.random() < 0.7
+    expect = "ok"
+    second = False
     pool = []
     en = None
     if mode == "partial":
@@ -311,7 +316,14 @@ def t_movable_fwd(g):
         g.feat.add("partial-enable-holding-circuit")
     elif mode == "group+movable":
         en, gouts = _group_inputs(g, r.random() < 0.4, resets, nin=2, widths=[0, 0])
-        pool = [g.reg(gouts[0], "regfwd", rst=resets), gouts[1]]
+        second = r.random() < 0.45
+        same = r.random() < 0.6
+        rv = g.rstof[gouts[0]]
+        if resets and second:
+            rv = rv if same else ("1" if rv == "0" else "0")
+        pool = [g.reg(gouts[0], "regfwd", rst=resets, rstval=rv if (resets and second) else None), gouts[1]]
+        if resets and second and not same:
+            expect = "known:hints-in-series-lose-upstream-reset-value"
         g.feat.add("group+movable")
     else:
         nin = r.choice([2, 2, 3])
@@ -332,14 +344,50 @@ def t_movable_fwd(g):
         x = y
     else:
         x = g.hint(x)
-        if r.random() < 0.3 and mode != "partial":
-            x = g.hint(g.unop(x)) if mode == "group+movable" else x
+        if second:
+            x = g.hint(g.unop(x))
+            g.feat.add("hints-in-series")
     if en is not None:
         g.emit("endenif")
     g.out(x)
     g.feat.add("movable-forward")
     g.feat.add("resets" if resets else "no-resets")
-    return dict(template="movable_fwd:" + mode, expect="ok", warm=False, claim="every-cycle")
+    return dict(template="movable_fwd:" + mode, expect=expect, warm=False, claim="every-cycle")
+
+
+def t_movable_series(g):
+    """two movable registers in series per input, pulled by two pipestage hints in series"""
+    r = g.r
+    resets = r.random() < 0.85
+    same = r.random() < 0.5
+    stall = r.random() < 0.35
+    nin = r.choice([1, 2])
+    pins = [g.pin(0) for _ in range(nin)]
+    en = None
+    if stall:
+        en = g.pin(0)
+        g.emit(f"enif {en}")
+        g.feat.add("stall")
+    pool = []
+    for p in pins:
+        rv = g.rstlit(p)
+        a1 = g.reg(p, "regfwd", rst=resets, rstval=rv)
+        rv2 = rv if same else ("1" if rv == "0" else "0")
+        pool.append(g.reg(a1, "regfwd", rst=resets, rstval=rv2))
+    x = g.combine(pool) if nin > 1 else g.unop(pool[0])
+    x = g.hint(x)
+    x = g.unop(x) if r.random() < 0.5 else g.op2(x, g.lit(g.typ[x]))
+    x = g.hint(x)
+    if stall:
+        g.emit("endenif")
+    g.out(x)
+    g.feat.add("movable-forward")
+    g.feat.add("hints-in-series")
+    g.feat.add("movable-registers-in-series")
+    g.feat.add("resets" if resets else "no-resets")
+    ok = same or not resets
+    return dict(template="movable_series:" + ("equal-resets" if ok else "different-resets"),
+                expect="ok" if ok else "known:hints-in-series-lose-upstream-reset-value", warm=False, claim="every-cycle")
 
 
 def t_movable_bwd(g):
@@ -464,6 +512,7 @@ TEMPLATES = [
     ("autostate_movable", 6, lambda g: t_autostate(g, True)),
     ("autostate_anchored", 4, lambda g: t_autostate(g, False)),
     ("movable_fwd", 18, t_movable_fwd),
+    ("movable_series", 7, t_movable_series),
     ("movable_bwd", 12, t_movable_bwd),
     ("negreg", 14, t_negreg),
 ]
